@@ -112,6 +112,9 @@ func Run(raw json.RawMessage) (any, error) {
 	if c.Mode == "merge" {
 		return runMerge(&c)
 	}
+	if c.Mode == "fkadd" {
+		return runFkAdd(&c)
+	}
 	w, err := sqlsched.NewWorld(c.NSess, setup(&c), c.Autos...)
 	if err != nil {
 		return nil, err
@@ -238,4 +241,84 @@ func sortPairs(p [][]int) {
 			p[j], p[j-1] = p[j-1], p[j]
 		}
 	}
+}
+
+// Mode "fkadd": the base has NO foreign key; main adds a unique index on p(b) and FOREIGN KEY t(b) -> p(b)
+// (a non-pk reference through indexes that do not exist in the merge base), the other branch — not bound by
+// the FK yet — changes parent and child rows; main merges it with forced commit.  Reported: merged tables
+// and the recorded violations.
+func runFkAdd(c *Case) (any, error) {
+	st := []string{
+		"CREATE TABLE p (pk int primary key, a int NOT NULL, b int)",
+		"CREATE TABLE t (pk int primary key, a int, b int, UNIQUE KEY ua (a), CONSTRAINT ck CHECK (a <= b))",
+	}
+	for _, r := range c.Init {
+		tn, pk := tbl(r[0])
+		st = append(st, fmt.Sprintf("INSERT INTO %s VALUES (%d, %s, %s)", tn, pk, sqlsched.V(r[1]), sqlsched.V(r[2])))
+	}
+	st = append(st, "CALL dolt_commit('-Am', 'init')", "CALL dolt_branch('b1')")
+	w, err := sqlsched.NewWorld(0, st)
+	if err != nil {
+		return nil, err
+	}
+	defer w.Close()
+	s, err := w.Fresh()
+	if err != nil {
+		return nil, err
+	}
+	var o Obs
+	if err := s.MustExec("ALTER TABLE p ADD UNIQUE INDEX idx_b (b)", "ALTER TABLE t ADD CONSTRAINT fkb FOREIGN KEY (b) REFERENCES p (b)"); err != nil {
+		return nil, fmt.Errorf("add fk: %v", err)
+	}
+	apply := func(stmts [][]int) {
+		for _, x := range stmts {
+			so := sqlsched.Exec(s, Render(x))
+			so.Msg = ""
+			so.Rows = [][]int{}
+			o.Steps = append(o.Steps, so)
+		}
+	}
+	apply(c.Left)
+	if err := s.MustExec("CALL dolt_commit('-A', '--allow-empty', '-m', 'left')", "CALL dolt_checkout('b1')"); err != nil {
+		return nil, err
+	}
+	apply(c.Right)
+	if err := s.MustExec("CALL dolt_commit('-A', '--allow-empty', '-m', 'right')", "CALL dolt_checkout('main')", "SET @@dolt_force_transaction_commit = 1"); err != nil {
+		return nil, err
+	}
+	m := s.Exec("CALL dolt_merge('b1')")
+	if m.Err != "" {
+		o.MergeErr = 3
+		if c.Raw {
+			o.Msg = m.Err
+		}
+	}
+	for _, tn := range []string{"t", "p"} {
+		cf := sqlsched.Exec(s, "SELECT count(*) FROM dolt_conflicts_"+tn)
+		if cf.Err == 0 && len(cf.Rows) == 1 && cf.Rows[0][0] > 0 {
+			o.MergeErr = 5
+		}
+	}
+	fo := sqlsched.Exec(s, dumpQ)
+	if fo.Err != 0 {
+		return nil, fmt.Errorf("merged read: %s", fo.Msg)
+	}
+	o.Merged = fo.Rows
+	o.VRows = [][]int{}
+	for _, tn := range []string{"t", "p"} {
+		r := s.Exec("SELECT violation_type, pk FROM dolt_constraint_violations_" + tn)
+		if r.Err != "" {
+			continue
+		}
+		for _, row := range r.Rows {
+			ir, _, _ := sqlsched.IntRows([][]string{{row[1]}})
+			k := ir[0][0]
+			if tn == "p" {
+				k += PBase
+			}
+			o.VRows = append(o.VRows, []int{vtype(strings.ToLower(row[0])), k})
+		}
+	}
+	sortPairs(o.VRows)
+	return o, nil
 }
